@@ -128,6 +128,12 @@ def run_step(root, do_step, step, fault=None, config_path=None, pool_seed=0, tim
                 outcome = {"exc": type(e).__name__, "msg": str(e)[:300], "where": where}
         finally:
             SIM.active = False
+        # the system's process ends normally here: its exit handlers run (a killed process never gets this far)
+        try:
+            import atexit
+            atexit._run_exitfuncs()
+        except BaseException:
+            pass
         report({"outcome": outcome, "events": SIM.events, "fired": SIM.fired, "clock": SimClock.now})
 
     msgs, code = run_child(child, timeout=timeout)
